@@ -246,17 +246,17 @@ theorem relz_stepCore {c : Cfg} (hw : c.wipe = true) {s : State} (h : RelZ s.m) 
   case genrolocked => exact relz_doNewLocked hw (relz_newBytes hw h) _ _ _ _
   case failfrom k => exact h
   case wprobe off =>
-    unfold opWProbe; apply slot; intro sl
+    unfold opWProbe; apply live; intro sl
     split
     · exact h
     · split <;> exact h
   case rprobe off =>
-    unfold opRProbe; apply slot; intro sl
+    unfold opRProbe; apply live; intro sl
     split
     · exact h
     · split <;> exact h
   case gprobe f =>
-    unfold opGProbe; apply slot; intro sl
+    unfold opGProbe; apply live; intro sl
     split
     · exact h
     · simp only []; repeat' split
